@@ -4,10 +4,13 @@ EXTENDS PyScope, Json, TLC
 \* Everything the harness compares against is computed here, by the spec:
 \* the binding scope of every token, the name table of every scope, the
 \* resolution of every (scope, name), well-formedness.
-EvRec(P, e) == [s |-> e[1], op |-> e[2], n |-> e[3], k |-> e[4], b |-> BScope(P, e)]
+EvRec(P, e) == [s |-> e[1], op |-> e[2], n |-> e[3], k |-> e[4], b |-> BScope(P, e),
+                det |-> Determined(P, e), lc |-> InLib(P, e)]
 
 ProgramRecord(P) ==
   [ scopes  |-> P.scopes,
+    lib     |-> P.lib,
+    libname |-> P.libname,
     ev      |-> { EvRec(P, e) : e \in AllEv(P) },
     names   |-> { <<s, n>> \in ScopeIds(P) \X UsedNames(P) : Local(P, s, n) },
     resolve |-> { <<sn[1], sn[2], Resolve(P, sn[1], sn[2])>> : sn \in ScopeIds(P) \X UsedNames(P) },
